@@ -1,7 +1,12 @@
 /* start_probe.c — runs /repo's lock.c (lock_create, _lock_stat) with open/fcntl/unlink/close and the
  * log_* exits interposed by macros, and prints what the code actually asks the kernel for as
  * coq/gen/GenStart.v: open flags and mode of the lock file, the fcntl command and lock shape, whether
- * a start without --force unlinks anything, and which file modes the fstat check accepts. */
+ * a start without --force unlinks anything, and which file modes the fstat check accepts; the name
+ * _lock_create_name derives from the socket name (suffix, longest name it can produce); and the sizes
+ * sock_create's copy of the socket name into sockaddr_un works with: sizeof sun_path, and the values of the
+ * two size expressions tools/facts/start.py cut out of sock_create's text (SOCK_COPY_SIZE_EXPR = third
+ * argument of the strlcpy, SOCK_LEN_BOUND_EXPR = right-hand side of the length test), evaluated here with
+ * the same headers and a variable of the same name (SOCK_ADDR_VAR). */
 #include "config.h"
 #include <assert.h>
 #include <errno.h>
@@ -11,7 +16,9 @@
 #include <stdio.h>
 #include <stdlib.h>
 #include <string.h>
+#include <sys/socket.h>
 #include <sys/stat.h>
+#include <sys/un.h>
 #include <unistd.h>
 #include "conf.h"
 #include "log.h"
@@ -127,6 +134,39 @@ int main(void) {
         if (rej == 0) _lock_stat(fd, dir);
         printf("Definition lock_stat_accepts_nonregular : bool := %s.\n", B(!rej));
         close(fd);
+    }
+    /* 5: the lock file's name as _lock_create_name derives it from the socket name */
+    {
+        struct conf c2;
+        char longname[3001];
+        size_t k, sl = strlen(sock);
+        memset(&c2, 0, sizeof c2);
+        c2.socket_name = sock; c2.lockfile_fd = -1;
+        if (setjmp(jb) == 0) _lock_create_name(&c2);
+        printf("(* conf->lockfile_name = conf->socket_name ++ suffix, as long as the result fits lock_name_max bytes *)\n");
+        if (!c2.lockfile_name || strncmp(c2.lockfile_name, sock, sl) != 0) {
+            fprintf(stderr, "lockfile_name does not start with socket_name\n"); return 3;
+        }
+        printf("Definition lock_name_suffix : list N := [");
+        for (k = sl; c2.lockfile_name[k]; k++) printf("%s%u", k == sl ? "" : "; ", (unsigned char) c2.lockfile_name[k]);
+        printf("].\n");
+        memset(longname, 'a', sizeof longname - 1); longname[0] = '/'; longname[sizeof longname - 1] = 0;
+        c2.socket_name = longname;
+        if (setjmp(jb) == 0) _lock_create_name(&c2);
+        k = c2.lockfile_name ? strlen(c2.lockfile_name) : 0;
+        if (k > sizeof longname - 1 || strncmp(c2.lockfile_name, longname, k < 3000 ? k : 3000) != 0) {
+            fprintf(stderr, "lockfile_name of a long socket_name is not a prefix of socket_name ++ suffix\n"); return 3;
+        }
+        printf("Definition lock_name_max : N := %lu.\n", (unsigned long) k);
+    }
+    /* 6: sizes in sock_create's copy of the socket name into the socket address */
+    {
+        struct sockaddr_un SOCK_ADDR_VAR;
+        (void) SOCK_ADDR_VAR;
+        printf("(* sock_create: n = strlcpy (addr.sun_path, conf->socket_name, sock_copy_size); if (n OP sock_len_bound) exit *)\n");
+        printf("Definition sun_path_cap : N := %lu.\n", (unsigned long) sizeof (((struct sockaddr_un *) 0)->sun_path));
+        printf("Definition sock_copy_size : N := %lu.\n", (unsigned long) (SOCK_COPY_SIZE_EXPR));
+        printf("Definition sock_len_bound : N := %lu.\n", (unsigned long) (SOCK_LEN_BOUND_EXPR));
     }
     rmdir(dir);
     return 0;
